@@ -146,3 +146,36 @@ PROPS["C05"] = dict(
     trusted_base=_RP_TRUSTED,
     assumptions=["chains within the documented limit (length <= 63)", "handlers call Next at most once (the property's quantifier); more is K2/C04"],
 )
+
+PROPS["C09"] = dict(
+    claim=dict(
+        text="Machine-checked proof (Coq 8.16) over the dispatcher model (chain machine + OnPanic/OnError hooks + final commit): with an OnPanic hook, for every chain, panic position (any op of any handler, fallback handlers, the OnError hook) and target, the panic never escapes and the underlying writer receives exactly one WriteHeader (C09_contained, by a writer-log invariant carried through every machine step); the hook runs exactly once on the context as the panic left it with the value under _recoverResult, nothing runs afterwards, then the header is committed (C09_hook_once); without a hook the same value propagates (C09_propagates); the next request is served from a pristine context and the router configuration is never written by a request (C09_healthy). F09 is kept as a refuted witness. Tie to the code: panics injected at generated positions x hook kinds x follow-up requests; escaped value, hook count, recovered value, writer log compared with the extracted model; every request is also served on a freshly built identical router and the two observations must coincide (twin oracle).",
+        note="Trusted: Coq kernel, extraction, driver, harness. The theorems assume hooks that perform effects only; fuel exhaustion of the executable dispatcher is excluded by hypothesis (r <> OutOfFuel) - the harness never observes it. panic(nil) excluded. 'Router stays healthy' is a theorem only in the sense that the model's router state is an immutable input; its substance is the twin oracle of the tie.",
+        technique="Coq proof: case analysis of the dispatcher + writer-log invariant over machine steps; extracted model vs implementation differential check with fresh-router twin oracle"),
+    n=dict(quick=1500, thorough=30000),
+    consts=[],
+    theorems=["C09_contained", "C09_hook_once", "C09_propagates", "C09_healthy"],
+    rule="case = router with 0..2 global, 0..1 group, 0..2 route middleware, custom or default NotFound/NotAllowed, optional OnError hook; one handler "
+         "(any middleware, main, fallback handler, or the OnError hook) panics before or after Next; OnPanic hook in {none, nothing, status, status+body, "
+         "hook that panics}; 1..3 follow-up requests; every request is also served as first request of a freshly built identical router (twin oracle). "
+         "Observed: escaped value, trace incl. hook event and its snapshot of _recoverResult, writer log. Non-trivial = distinct case where the panic was reached.",
+    trusted_base=_RP_TRUSTED,
+    assumptions=["panic(nil) is excluded (Go-version dependent)", "hooks perform effects only (status, body, events, snapshots); a hook calling Next is outside the model"],
+)
+
+PROPS["C10"] = dict(
+    claim=dict(
+        text="Machine-checked proof (Coq 8.16): Context.Init/Reset (transcribed field by field) maps every pooled context state - any data, params, errors, cursor, handler slice, writer state, replaced Resp or Req - to the fresh context (C10_init_pristine, C10_first_snapshot), hence serving a request does not depend on the pooled context it gets and the k-th request of any history behaves as the first request on a fresh router (C10_history). The theorem is easy; its value is in the tie: histories of requests whose handlers perform every context mutation are run with GC disabled so that contexts are really reused (reuse is counted and reported), the first handler of every request snapshots the context, and every request is also served as first request of a freshly built identical router: both observations must coincide and equal the model's.",
+        note="Trusted: Coq kernel, extraction, driver, harness. A field added to rux.Context is invisible to the model; the field list of Context is dumped from the built package on every run and compared with the pinned list (bin/fields.expected). sync.Pool is modelled as 'any earlier context or a fresh one'. Requests re-dispatched through Router.HandleContext (F16) are outside the model.",
+        technique="Coq proof: Init maps every context state to the fresh one; differential check with real context reuse and fresh-router twin oracle"),
+    n=dict(quick=1500, thorough=30000),
+    consts=["context-fields"],
+    theorems=["C10_init_pristine", "C10_first_snapshot", "C10_history"],
+    rule="case = history of 3..8 requests (static routes, 404, 405) on one router whose handlers perform context mutations (Set, AddError, Params write, replace "
+         "Resp, replace Req, status, body, flush, Abort, AbortWithStatus, panic with/without OnPanic, OnError); the first global middleware of every request "
+         "snapshots Data/Params/Errors/IsAborted/StatusCode/Length/Resp identity/Req identity; GC is disabled so the pool really reuses contexts; every request "
+         "is also served as first request of a freshly built identical router (twin oracle). Non-trivial = distinct history in which a context was really reused.",
+    trusted_base=_RP_TRUSTED,
+    assumptions=["the modelled context fields are those of rux.Context at the pinned commit; the struct's field list is compared on every run (constants item context-fields)",
+                 "dynamic-route parameters are exercised through Params writes here and through C02/C07 for matching"],
+)
